@@ -32,7 +32,7 @@ import shutil
 import sys
 
 sys.path.insert(0, os.path.dirname(os.path.abspath(__file__)))
-from rustscan import Source, AnchorError, line_start, line_end  # noqa: E402
+from rustscan import Source, AnchorError, line_start, line_end, split_args  # noqa: E402
 
 TAG_RE = re.compile(r'//@\s*([\w.\-]+)\s*\[([A-Z0-9, ]*)\]\s*$')
 
@@ -106,10 +106,11 @@ def normalise(fname, text):
 # ---------------------------------------------------------------------------------------------
 
 def split_regex_args(args):
-    m = re.match(r'(\S+)\s+/(.*)/\s*(\S+)?\s*$', args)
+    fn = split_args(args)[0]
+    m = re.match(r'\s*/(.*)/\s*(\S+)?\s*$', args[len(fn):])
     if not m:
         raise AnchorError('bad anchor syntax: %s' % args)
-    return m.group(1), m.group(2), (m.group(3) or '1')
+    return fn, m.group(1), (m.group(2) or '1')
 
 
 def plan_insertions(src, blocks):
@@ -136,11 +137,11 @@ def plan_insertions(src, blocks):
             pos = src.find_item(kind, name.strip())
             ins.append((src.attr_start(pos), 'lines', b))
         elif d == 'fn':
-            path = b.args.split()[0]
+            path = split_args(b.args)[0]
             pos, _, _ = src.find_fn(path)
             ins.append((src.attr_start(pos), 'lines', b))
         elif d == 'loop':
-            fnpath, spec = b.args.split()
+            fnpath, spec = split_args(b.args)
             pos = src.find_loop(fnpath, spec)
             ls = line_start(text, pos)
             if text[ls:pos].strip() == '':
@@ -159,7 +160,7 @@ def plan_insertions(src, blocks):
                 else:
                     ins.append((a, 'inline', b))
         elif d in ('loop-body', 'loop-end'):
-            fnpath, spec = b.args.split()
+            fnpath, spec = split_args(b.args)
             pos = src.find_loop(fnpath, spec)
             k, par = pos, 0
             while k < len(src.m):
@@ -177,7 +178,7 @@ def plan_insertions(src, blocks):
                 from rustscan import match_brace
                 ins.append((line_start(text, match_brace(src.m, k)), 'lines', b))
         elif d == 'body-start':
-            _, op, _ = src.find_fn(b.args.split()[0])
+            _, op, _ = src.find_fn(split_args(b.args)[0])
             ins.append((line_end(text, op), 'lines', b))
         else:
             raise AnchorError('unknown directive @%s in %s' % (d, b.sidecar))
